@@ -596,8 +596,18 @@ class G:
         a, b, c = sel(P, names[0]), sel(P, names[1]), sel(P, names[2])
         na, nb = sel(sel(P, names[3]), names[0]), sel(sel(P, names[3]), names[1])
         op = "+" if T == "str" else r.choice(["+", "+", "-", "*"])
-        k = r.randrange(7)
-        if k == 0:
+        k = r.randrange(9)
+        if k == 7:
+            # three and four different fields of the one parameter
+            names2 = r.sample([n for n in FIELD_POOL if n not in names], 2)
+            tt = ("tuple", tt[1] + ((names2[0], T), (names2[1], T)))
+            d_, e_ = sel(P, names2[0]), sel(P, names2[1])
+            body, ret = ("bin", op, ("bin", op, ("bin", op, a, b), d_), e_), T
+        elif k == 8:
+            names2 = r.sample([n for n in FIELD_POOL if n not in names], 1)
+            tt = ("tuple", tt[1] + ((names2[0], U),))
+            body, ret = ("list", [("list", [a, b]), ("list", [c, sel(P, names2[0])]), ("list", [na])]), None
+        elif k == 0:
             body, ret = ("bin", op, a, b), T
         elif k == 1:
             body, ret = ("list", [a, b]), ("list", T)
@@ -612,6 +622,12 @@ class G:
         else:
             body, ret = ("bin", "==", c, c), "bool"
         arg = self.literal(tt) if r.random() < 0.6 else self.expr(tt, 1, nobad=True)
+        if ret is None:
+            # result type not tracked: the function is defined and called, the result bound but not used again
+            f = self.fresh("f")
+            stmts.append(("let", f, ("func", [p], body)))
+            stmts.append(("let", self.fresh(), ("call", ("sym", f), [arg])))
+            return
         if r.random() < 0.7:
             f = self.fresh("f")
             stmts.append(("let", f, ("func", [p], body)))
